@@ -170,8 +170,6 @@ def gen_wide_program(rng):
             kind = rng.choice(["port", "l4proto", "ipversion", "dscp"])
             conds.insert(rng.randint(0, 1), {"kind": kind, "neg": rng.random() < 0.3, "params": [list(c01.gen_value(rng, kind))]})
         rules.append({"conds": conds, "out": c01.gen_outbound(rng, prog["groups"])})
-    for r in rules:
-        r["out"]["name"] = r["out"]["name"].replace("must_see", "seen")
     prog["rules"] = rules + prog["rules"][:2]
     return prog
 
@@ -617,7 +615,10 @@ def main(argv):
         run_all(cases, 0, "b")
         widened = False
         spec_fail = lambda: sorted(i for i, e in all_err.items() if any(c == 2 for (_, c) in e))
-        other_fail = lambda: sorted(i for i, e in all_err.items() if any(c not in (2, 9) for (_, c) in e))
+        def corr_broken(e):
+            """a correspondence failure: impl<>model, encodings, harness trouble, or model<>spec on a probe where impl=spec"""
+            return any(c in (1, 4, 5, 6, 7, 8) or (c == 3 and (p, 2) not in e) for (p, c) in e)
+        other_fail = lambda: sorted(i for i, e in all_err.items() if corr_broken(e))
         # property violations inside the partial theorem's hypotheses (the known process-name divergence must not hide others)
         real_spec = lambda: sorted(i for i, e in all_err.items() if any(c == 2 and (p, 9) not in e for (p, c) in e))
         if (not proof_ok or other_fail()) and not real_spec() and not fatal:
